@@ -327,6 +327,19 @@ CHECKS["C17"] = {
     "assumptions": ["cooperative goroutine model: one goroutine runs until it blocks; channels are FIFO queues (an unbuffered channel is modelled as a one-slot hand-off queue)",
                     "context.WithCancel modelled as {done channel, err}; the clock.Clock interface is implemented by the harness (native replay uses the same implementation)"],
 }
+CHECKS["C20"] = {
+    "runs": [
+        {"pkg": "./cmd/spy", "entry": "VerifC20_Delivery", "reach": ["delivered", "filtered", "end"], "opts": {"z3": "z3-new"}, "allow_blocked": True,
+         "shards": {"quick": ["nsub=1", "nsub=2;nvaa=1;nfilters#0=0", "nsub=2;nvaa=1;nfilters#0=1", "nsub=2;nvaa=1;nfilters#0=2", "nsub=2;nvaa=2;nfilters=0,1;stalledSub=9", "nsub=2;nvaa=3;nfilters=0,1;stalledSub=9;v.chain=0", "nsub=2;nvaa=3;stalledSub=0;nfilters=0,1", "nsub=2;nvaa=3;stalledSub=1;nfilters=0,1"],
+                    "thorough": ["nsub=1", "nsub=2"] + ["nsub=3;nvaa=%d;stalledSub=%d" % (v, st) for v in (1, 2, 3) for st in (9, 0, 1, 2)]},
+         "timeout": {"quick": 2400, "thorough": 30000}},
+    ],
+    "bounds": {"quick": {"scenarios": "1..2 subscribers with 0..2 filters each (chain id and last address byte symbolic, filters may coincide); 1..3 published VAAs with symbolic emitter chain and address byte; nobody or one subscriber stalled from the start (its Send never returns); afterwards a new subscription, its disconnect, and the disconnect of every draining subscriber",
+                         "unwind": 3000},
+               "thorough": {"scenarios": "3 subscribers"}},
+    "outside": "pre-emptive interleavings inside Publish / SubscribeSignedVAA (the scheduler is cooperative: a goroutine runs until it blocks); gRPC transport; delivery multiplicity (a subscriber with two matching filters is sent the VAA twice today - recorded, not asserted); map iteration order other than insertion order",
+    "assumptions": ["cooperative goroutine model; sync.Mutex with blocking Lock; buffered channels as FIFO queues", "uuid.New() returns fresh distinct ids; context model; gRPC stream = harness fake (draining / stalled)"],
+}
 
 # generated harness parts per (module, package): regenerated from /repo on every run for every check that loads the package
 GENERATORS = {("node", "./pkg/vaa"): [_gen_c04], ("node", "./pkg/processor"): [_gen_c07], ("node", "./pkg/alephium"): [_gen_c11], ("node", "./cmd/guardiand"): [_gen_c15]}
